@@ -46,6 +46,13 @@ def render(name, s, e, nlook, shape=None):
         # the other thread's whole call falls inside ours: A.START B.START B.END A.END
         evs = [E.ev(name, 1, s), E.ev(name, 1, s, tid=2), E.ev(name, 2, (0x9a, 0x9b9b, 0x9c9c, 0x9d9d), tid=2)] + mid + [E.ev(name, 2, e)]
         judged = len(evs) - 1
+    if shape in ('other-open-inside', 'other-open-before'):
+        # another call of the same thread whose END record was lost is still open when ours ends (opened inside / before ours)
+        other = E.ev('BSC_getuid' if name != 'BSC_getuid' else 'BSC_getpid', 1, (0x9a9a, 0x9b9b, 0x9c9c, 0x9d9d))
+        evs = [evs[0], other] + evs[1:] if shape == 'other-open-inside' else [other] + evs
+        judged = len(evs) - 1
+        out = [t for t in p.feed_generator(E.restamp(evs)) if t.ktraces[0].eventid == E.n2i(name) and t.ktraces[-1].timestamp == judged]
+        return E.stable_str(out[0]) if len(out) == 1 else None
     if shape == 'odd-timestamps':
         st = E.restamp(evs)
         # nested records stamped later than the END / on the END's tick / before the START
@@ -58,8 +65,9 @@ def render(name, s, e, nlook, shape=None):
     return E.stable_str(out[0])
 
 
-def judge_decoder(name, starts, nlooks, acc):
-    """all END tuples for one decoder; returns list of (sig, case, detail)"""
+def judge_decoder(name, starts, nlooks, acc, full=True):
+    """all END tuples for one decoder (full=False: the START tuples after the first one meet a reduced set of error words);
+    returns list of (sig, case, detail)"""
     bad = []
     per_end_rest = {}
     for si, s0 in enumerate(starts):
@@ -67,10 +75,10 @@ def judge_decoder(name, starts, nlooks, acc):
         for nlook in nlooks:
             call0 = None
             extra0 = None
-            for err in ERRS:
+            for err in (ERRS if full or si == 0 else (0, 2, 9999, M64)):
                 for ret in RETS:
                     for tail in TAILS:
-                      for shape in ((None, 'long', 'crossing', 'enclosing', 'odd-timestamps') if (err in (0, 2, 9999) and ret in (0x55, M64) and tail == TAILS[1] and si == 0) else (None,)):
+                      for shape in ((None, 'long', 'crossing', 'enclosing', 'odd-timestamps', 'other-open-inside', 'other-open-before') if (err in (0, 2, 9999) and ret in (0x55, M64) and tail == TAILS[1] and si == 0) else (None,)):
                         e = (err, ret) + tail
                         case = {'decoder': name, 'start': [hex(x) for x in s], 'end': [hex(x) for x in e], 'lookups': nlook, 'shape': shape}
                         try:
@@ -136,12 +144,11 @@ def judge_decoder(name, starts, nlooks, acc):
 class C10(Check):
     pid = 'C10'
     level = 'exploration'
-    rule = ('every BSD decoder outside the exempt list (15 names from the statement) x START tuples {junk (quick); + zeros, '
-            'all-ones (thorough)} (enum words forced in-domain) x END tuples = error word {0, every errno 1..106, 107, 255, '
+    rule = ('every BSD decoder outside the exempt list (15 names from the statement) x START tuples {junk, zeros, all-ones} (enum words forced in-domain; quick: zeros and all-ones meet error words {0, 2, 9999, 2^64-1} only) x END tuples = error word {0, every errno 1..106, 107, 255, '
             '9999, 2^31, 2^32, 2^63, 2^64-1} x return word {0,1,0x55,2^31,2^63,2^64-1} x words 2,3 {(0,0),(0x66,0x77)} x '
             'lookups in window {6 (quick); 0 and 6 (thorough)}; for 12 END tuples per decoder also a window with 5000 stand-alone '
             'same-thread records between START and END, and crossing / enclosing windows (another thread inside the same call with other END '
-            'words: A.START B.START A.END B.END and A.START B.START B.END A.END, parser built with a populated thread map), and a window whose nested records carry the END tick or later ticks. Oracle: error!=0 => result part is exactly ", errno: NAME(code)" '
+            'words: A.START B.START A.END B.END and A.START B.START B.END A.END, parser built with a populated thread map), a window whose nested records carry the END tick or later ticks, and windows with another call of the same thread (its END lost) still open, opened inside / before ours. Oracle: error!=0 => result part is exactly ", errno: NAME(code)" '
             'or ", errno: code" with that code; error==0 => no errno, every number shown renders END word 1..3; call part '
             'identical across END tuples; result part identical across START tuples. Distinct by construction; non-trivial = '
             'error word non-zero or a success value is shown.')
@@ -151,13 +158,13 @@ class C10(Check):
         return {'decoders': len(bsd_decoders()), 'end_tuples': len(ERRS) * len(RETS) * len(TAILS)}
 
     def shards(self):
-        return [('dec', ch) for ch in chunked(bsd_decoders(), 173)]
+        return [('dec', ch) for ch in chunked(bsd_decoders(), 24)]
 
     def run_shard(self, desc, acc):
-        starts = STARTS[:1] if self.tier == 'quick' else STARTS
+        starts = STARTS
         nlooks = [6] if self.tier == 'quick' else [0, 6]
         for name in desc[1]:
-            for sig, case, detail in judge_decoder(name, starts, nlooks, acc):
+            for sig, case, detail in judge_decoder(name, starts, nlooks, acc, full=self.tier != 'quick'):
                 acc.violation(sig, case, detail)
 
     def replay(self, case):
